@@ -355,6 +355,7 @@ class Driver:
         w.faults.script = []
         w.faults.per_url.clear()     # outages end
         w.sim.stall_p = 0.0          # a stalled disk is a fault too
+        w.sim.line_stall_p = 0.0     # ... and so is a thread descheduled for seconds
         w.sim.stall_boost = None
         end = w.sim.now + limit
         # let background daemon events fire first
@@ -432,6 +433,7 @@ class Driver:
         w = self.w
         w.faults.enabled = True
         w.sim.stall_p = w.k['stall_p']
+        w.sim.line_stall_p = float(w.k.get('line_stall_p') or 0.0)
         w.sim.stall_boost = tuple(w.k['stall_boost']) if w.k.get('stall_boost') else None
 
     LIVENESS_PROP = 'C01'
